@@ -67,6 +67,7 @@ type CFault struct {
 
 // CScenario is one world-C run
 type CScenario struct {
+	Fine         bool     `json:"fine_yields,omitempty"` // every larger function entry of the code under test is a preemption point in this run
 	MemCap       int      `json:"mem_cap"`
 	QueueCap     int      `json:"queue_cap"`
 	MaxBufBytes  int64    `json:"max_buf_bytes"`
@@ -102,6 +103,9 @@ func genSize(r *simrt.Rand, quota int64) int {
 	}
 	return 100 + r.Intn(900)
 }
+
+// SetFine switches fine-grained interleaving on for this scenario
+func (s *CScenario) SetFine(v bool) { s.Fine = v }
 
 func (w *worldC) Generate(r *simrt.Rand, profile, tier string) any {
 	s := &CScenario{}
@@ -370,6 +374,7 @@ func errnoOf(s string) syscall.Errno {
 
 func (w *worldC) Run(t *testing.T, profile string, sc any, cfg simrt.Config) *Outcome {
 	s := sc.(*CScenario)
+	cfg.FineYields = s.Fine
 	out := &Outcome{}
 	r := &cRun{s: s, profile: profile, out: out, chunks: map[string]*cChunk{}, killedGen: -1, planted: map[string]bool{}}
 	logger.SetOutput(&r.logbuf)
